@@ -17,8 +17,18 @@ package goproxytest
 //@ extern golang.org/x/mod/module.Check(path, version) (err)
 //@   pure
 //@   ensures (err == nil) == moduleCheckOK(path, version)
+// semver.Compare as an abstract total preorder on version strings (by content id)
+//@ pure func semverCmp(a int, b int) int
+//@ axiom semverRefl: forall a int {semverCmp(a, a)} :: semverCmp(a, a) == 0
+//@ axiom semverAnti: forall a, b int {semverCmp(a, b)} :: (semverCmp(a, b) < 0) == (semverCmp(b, a) > 0)
+//@ axiom semverTrans: forall a, b, c int {semverCmp(a, b), semverCmp(b, c)} :: semverCmp(a, b) >= 0 && semverCmp(b, c) >= 0 ==> semverCmp(a, c) >= 0
 //@ extern golang.org/x/mod/semver.Compare(v, w) (r)
 //@   pure
+//@   ensures r == semverCmp(sid(v), sid(w))
+// the commit hash a stored version answers to: the suffix of a pseudo-version, else the
+// Short field of its .info file (findHash); hashFits: one is a prefix of the other
+//@ pure func storedHash(m int) int
+//@ pure func pfxS(s int, p int) bool
 //@ extern fmt.Fprintf(w, format, a) (n, err)
 //@   modifies gBodyWrites
 //@   ensures gBodyWrites == old(gBodyWrites) + 1
@@ -53,6 +63,7 @@ package goproxytest
 //@ func (*Server).findHash
 //@   trusted
 //@   pure
+//@   ensures sid(result) == storedHash(sid(m.Version))
 //@ func isPseudoVersion
 //@   trusted
 //@   pure
@@ -92,8 +103,15 @@ package goproxytest
 //@   at call fmt.Fprintf#1: requires m.Path == path && unboxStr(at(a, lo(a))) == m.Version && !pseudoVersion(m.Version) && moduleCheckOK(m.Path, m.Version)
 //@   at call (net/http.ResponseWriter).Write#1: requires f.Name == want && sameSlice(b, f.Data) && gBodyWrites == old(gBodyWrites)
 //@   at call (net/http.ResponseWriter).Write#1: requires forall K {at(my_a.Files,K)} :: lo(my_a.Files) <= K && K < lo(my_a.Files) + rangeindex ==> at(my_a.Files,K).Name != want
+//@   at call semver.Compare#1: requires m.Path == path && v == best && w == m.Version
+//@   at call goproxytest.isPseudoVersion#2: requires v == m.Version
+//@   at call (*goproxytest.Server).findHash#1: requires !pseudoVersion(m.Version)
+//@   at call strings.LastIndex#2: requires pseudoVersion(m.Version) && sameStr(s, m.Version)
+//@   at call strings.HasPrefix#2: requires sameStr(prefix, vers)
+//@   at call strings.HasPrefix#3: requires sameStr(s, vers)
 //@   loop 1: invariant -1 <= rangeindex && gStatus == old(gStatus) && gBodyWrites == old(gBodyWrites) + n && n >= 0
 //@   loop 2: invariant -1 <= rangeindex && gStatus == old(gStatus) && gBodyWrites == old(gBodyWrites)
+//@   loop 2: step best == prev_best || (semverCmp(sid(prev_best), sid(best)) < 0 && m.Path == path && best == m.Version)
 //@   loop 3: invariant -1 <= rangeindex && gStatus == old(gStatus) && gBodyWrites == old(gBodyWrites)
 //@   loop 3: invariant forall K {at(a.Files,K)} :: lo(a.Files) <= K && K <= lo(a.Files) + rangeindex ==> at(a.Files,K).Name != want
 //@   ensures gStatus == 404 ==> gBodyWrites == old(gBodyWrites)
